@@ -7,7 +7,9 @@
    the Go kernels returned (node by node, run alone), and RIMPL = impl_sim with the Coq kernel
    models of Registry.kernels (reported for information: kernel models are checked by C10-C16).  Dataset records: "<model> <label> NONE" or
    "<model> <label> <rank> <dims> : <hex values>" exactly like simgen's IMPL lines. *)
-let c07_hex f = Printf.sprintf "%016Lx" (Int64.bits_of_float (Float64.to_float f))
+(* every NaN is printed as the canonical quiet NaN (Coq's floats have one NaN; the check canonicalises the Go side too) *)
+let c07_hex f = let x = Float64.to_float f in
+  if x <> x then "7ff8000000000000" else Printf.sprintf "%016Lx" (Int64.bits_of_float x)
 let c07_unhex s = Float64.of_float (Int64.float_of_bits (Int64.of_string ("0x" ^ s)))
 let rec c07_nat (i : int) : nat = if i <= 0 then O else S (c07_nat (i - 1))
 let rec c07_int (n : nat) : int = match n with O -> 0 | S m -> 1 + c07_int m
